@@ -1,5 +1,6 @@
 import XdocModel.Stdlib
 import XdocModel.Lemmas.Stdlib
+import XdocModel.Lemmas.StdMarker
 import XdocModel.Proofs.C05
 /-!
 # C20 — Backwards compatible: what passes under the standard doctest module passes here
@@ -224,18 +225,123 @@ theorem stdlib_match_implies_xdoc_match_partial (sf : StdFlags) (got want : Str)
   stdlib_match_implies_xdoc_match_core sf got want got want hg.asciiGot hg.asciiWant
     hg.notTrueFor1 hM hM hg.xGot hg.xWant rfl rfl h
 
+/-! ### wants that contain `<BLANKLINE>` -/
+
+/-- what a standard match means in general: identical texts, or the whitespace-collapsed got agrees
+    with the collapsed want AFTER the standard marker substitution, or (ELLIPSIS) is related to it by
+    xdoctest's wildcard matcher -/
+theorem std_collapse_match_gen (sf : StdFlags) (G W : Str)
+    (hG : isAscii G = true) (hW : isAscii W = true)
+    (hT : trueFor1 G W = false) (h : stdCheck sf G W = true) :
+    G = W ∨ collapse G = collapse (stdBlankWant W) ∨
+      (sf.ellipsis = true ∧ ellipsisMatch (collapse G) (collapse (stdBlankWant W)) = true) := by
+  unfold stdCheck at h
+  simp only [toAscii_ascii G hG, toAscii_ascii W hW, hT, Bool.false_eq_true, ↓reduceIte] at h
+  have hg : collapse (stdBlankGot G) = collapse G := (wsDel_stdBlankGot G).collapse_eq.symm
+  generalize stdBlankWant W = W' at h ⊢
+  by_cases h1 : G = W
+  · exact Or.inl h1
+  · refine Or.inr ?_
+    by_cases h2 : stdBlankGot G = W'
+    · rw [← hg, h2]; exact Or.inl rfl
+    · simp only [beq_iff_eq, h1, h2, ↓reduceIte] at h
+      cases hn : sf.normWs
+      · simp only [hn, Bool.false_eq_true, ↓reduceIte, Bool.false_and, Bool.and_eq_true] at h
+        have := C05.ellipsisMatch_collapse _ _ (std_ellipsis_implies_xdoc_ellipsis _ _ h.2)
+        rw [hg] at this
+        exact Or.inr ⟨h.1, this⟩
+      · simp only [hn, ↓reduceIte, Bool.true_and] at h
+        by_cases h3 : collapse (stdBlankGot G) = collapse W'
+        · rw [← hg]; exact Or.inl h3
+        · have h' : sf.ellipsis = true ∧ stdEllipsis (collapse (stdBlankGot G)) (collapse W') = true := by
+            simpa [h3] using h
+          have := std_ellipsis_implies_xdoc_ellipsis _ _ h'.2
+          rw [hg] at this
+          exact Or.inr ⟨h'.1, this⟩
+
+/-- xdoctest's normal form of a want whose marker lines are all recognised by the standard module -/
+theorem norm1_want_marker_eq (f : Flags) (hn : f.normWs = true) (hi : f.ignWs = false) (hb : f.noBlank = false)
+    {w : Str} (hx : XGuards w) (hm : contains marker (stdBlankWant w) = false) :
+    norm1 f true w = collapse (stdBlankWant w) := by
+  have hcr0 : '\r' ∉ removeBlanklineMarker w := by
+    intro hmem
+    rcases rm_mem _ w (Nat.le_refl _) _ hmem with h | h
+    · exact hx.cr h
+    · cases h
+  have hcr : '\r' ∉ rstrip (stripTrailingWs (removeBlanklineMarker w)) := fun hm' =>
+    hcr0 ((wsDel_stripTrailingWs _).mem _ ((wsDel_rstrip _).mem _ hm'))
+  simp only [norm1, wsNorm, baseNorm, hn, hi, hb, Bool.true_or, ↓reduceIte, Bool.not_false, Bool.and_self,
+    Bool.false_eq_true, hx.ansi, hx.pu, hx.pb, eraseCrLines_id hcr]
+  rw [← ((wsDel_stripTrailingWs _).trans_collapse (wsDel_rstrip _)), collapse_removeMarker_eq hm]
+
+/-- ◐ wants WITH markers, all four flag settings: if every marker occurrence of the want is a marker
+    line for the standard module (no marker is left after its substitution), a standard match implies
+    an xdoctest match, under the guards. -/
+theorem stdlib_match_implies_xdoc_match_marker_lines (sf : StdFlags) (got want : Str)
+    (hg : Guards got want) (hm : contains marker (stdBlankWant want) = false)
+    (h : stdCheck sf got want = true) : checkOutput (corrFlags sf) got want = true := by
+  rw [C05.checkOutput_unfold]
+  rcases std_collapse_match_gen sf got want hg.asciiGot hg.asciiWant hg.notTrueFor1 h with h1 | hc
+  · exact Or.inr (Or.inl h1)
+  · refine Or.inr (Or.inr (checkMatch_normalize_of_match _ _ _ ?_))
+    rw [norm1_got_eq _ (corrFlags_normWs sf) (corrFlags_ignWs sf) hg.xGot,
+      norm1_want_marker_eq _ (corrFlags_normWs sf) (corrFlags_ignWs sf) (corrFlags_noBlank sf) hg.xWant hm]
+    rcases hc with hc | ⟨_, hc⟩
+    · simp [checkMatch, hc]
+    · simp [checkMatch, corrFlags_ellipsis sf, hc]
+
+theorem marker_plain : ∀ c ∈ marker, isSpace c = false ∧ c ≠ '.' := by decide +kernel
+
+/-- ★ a marker the standard substitution leaves in the want (an occurrence that is not a marker line)
+    has to be matched literally: a got without the marker cannot pass the standard check, unless the
+    texts are identical -/
+theorem std_rejects_leftover_marker (sf : StdFlags) (G W : Str)
+    (hG : isAscii G = true) (hW : isAscii W = true) (hT : trueFor1 G W = false)
+    (hmG : contains marker G = false) (hL : contains marker (stdBlankWant W) = true) (hne : G ≠ W) :
+    stdCheck sf G W = false := by
+  cases h : stdCheck sf G W with
+  | false => rfl
+  | true =>
+    exfalso
+    obtain ⟨m, hm⟩ := marker_head
+    have hp : ∀ c ∈ '<' :: m, isSpace c = false ∧ c ≠ '.' := by rw [← hm]; exact marker_plain
+    have hs : ∀ c ∈ '<' :: m, isSpace c = false := fun c hc => (hp c hc).1
+    have hcw : contains ('<' :: m) (collapse (stdBlankWant W)) = true := by
+      rw [← hm]; exact contains_collapse_of_contains (fun c hc => (marker_plain c hc).1) hL
+    have hfin : contains ('<' :: m) (collapse G) = true → False := by
+      intro hc
+      have := contains_of_contains_collapse hs hc
+      rw [← hm, hmG] at this; cases this
+    rcases std_collapse_match_gen sf G W hG hW hT h with h1 | h2 | ⟨_, h3⟩
+    · exact hne h1
+    · exact hfin (by rw [h2]; exact hcw)
+    · exact hfin (ellipsisMatch_contains hp h3 hcw)
+
 /-- what remains of `stdlib_match_implies_xdoc_match_statement`: the wants that contain the marker -/
 def stdlib_match_implies_xdoc_match_marker_statement : Prop :=
   ∀ (sf : StdFlags) (got want : Str), Guards got want → contains marker want = true →
     stdCheck sf got want = true → checkOutput (corrFlags sf) got want = true
 
-/-- the full guarded statement is the proved part plus the marker part -/
-theorem statement_of_marker_statement (h : stdlib_match_implies_xdoc_match_marker_statement) :
-    stdlib_match_implies_xdoc_match_statement := by
+/-- ★★ `stdlib_match_implies_xdoc_match`: the guarded statement of C20 at checker level, for ALL
+    got/want and all four flag settings (none, ELLIPSIS, NORMALIZE_WHITESPACE, both), wants with or
+    without `<BLANKLINE>`: whatever `doctest.OutputChecker.check_output` accepts, xdoctest's
+    `check_output` accepts under the runtime state of a standard doctest. No guard beyond `Guards`
+    is needed for the marker: a marker occurrence that is not a marker line survives the standard
+    substitution and then forces the marker into got (`std_rejects_leftover_marker`), which
+    `Guards.noMarkerInGot` excludes; marker lines are handled by `collapse_removeMarker_eq`. -/
+theorem stdlib_match_implies_xdoc_match : stdlib_match_implies_xdoc_match_statement := by
   intro sf got want hg hs
-  cases hm : contains marker want
-  · exact stdlib_match_implies_xdoc_match_partial sf got want hg hm hs
-  · exact h sf got want hg hm hs
+  by_cases hne : got = want
+  · rw [hne]; exact C05.checkOutput_refl _ _
+  · cases hm : contains marker (stdBlankWant want)
+    · exact stdlib_match_implies_xdoc_match_marker_lines sf got want hg hm hs
+    · have := std_rejects_leftover_marker sf got want hg.asciiGot hg.asciiWant hg.notTrueFor1
+        hg.noMarkerInGot hm hne
+      rw [this] at hs; cases hs
+
+/-- in particular the part that was left open: wants containing the marker -/
+theorem stdlib_match_implies_xdoc_match_marker : stdlib_match_implies_xdoc_match_marker_statement :=
+  fun sf got want hg _ hs => stdlib_match_implies_xdoc_match sf got want hg hs
 
 /-- ◐ end-to-end form for `exec`/`single` parts: the standard want ends with the newline the
     parser adds, xdoctest's want is the same text without it; got is the captured stdout -/
@@ -437,7 +543,13 @@ example : stdCheck fEL "x = 12  s\n".toList "x = ... s\n".toList = true ∧
     contains marker "x = ... s\n".toList = false ∧ isAscii "x = 12  s\n".toList = true := by decide +kernel
 -- a quoted want with an ellipsis: the quote step leaves the matching pair alone
 example : checkOutput (corrFlags fEL) "'a b c'".toList "'a ... c'".toList = true := by decide +kernel
--- marker and ellipsis cases outside the partial theorem, evaluated
+-- an instance of the full theorem with markers: three marker lines (one followed by blanks), matched through them
+example : stdCheck f00 "a\n\n\nb\n\nc\n".toList "a\n<BLANKLINE>\n<BLANKLINE>  \nb\n<BLANKLINE>\nc\n".toList = true ∧
+    contains marker (stdBlankWant "a\n<BLANKLINE>\n<BLANKLINE>  \nb\n<BLANKLINE>\nc\n".toList) = false ∧
+    contains marker "a\n\n\nb\n\nc\n".toList = false := by decide +kernel
+-- a marker that is not a marker line is left behind by the standard substitution
+example : contains marker (stdBlankWant "a <BLANKLINE>\n".toList) = true := by decide +kernel
+-- marker and ellipsis cases, evaluated
 example : stdCheck f00 "a\n\nb\n".toList "a\n<BLANKLINE>\nb\n".toList = true ∧
     checkOutput (corrFlags f00) "a\n\nb\n".toList "a\n<BLANKLINE>\nb".toList = true := by decide +kernel
 example : stdCheck fEL "x = 12 s\n".toList "x = ... s\n".toList = true ∧
